@@ -3,8 +3,8 @@ from . import runner
 
 
 def checks():
-    from .checks import ir
-    cs = [ir.C09(), ir.C10(), ir.C11(), ir.C12(), ir.C13()]
+    from .checks import ir, mem, intv
+    cs = [ir.C09(), ir.C10(), ir.C11(), ir.C12(), ir.C13(), mem.C14(), mem.C15(), mem.C16(), mem.C18(), intv.C17()]
     return {c.pid: c for c in cs}
 
 
